@@ -146,9 +146,27 @@ def catalog():
     return out
 
 
+def _worker_consts(_):
+    return [fi._READ_SIZE_BYTES, fi._MAX_FE_MSG_SIZE_BYTES, os.getpid()]
+
+
+def probe_fork():
+    """are module constants patched in this process seen by the pool workers fast_generate_index creates?"""
+    from multiprocessing import get_start_method
+    fi._READ_SIZE_BYTES, fi._MAX_FE_MSG_SIZE_BYTES = 64, 48
+    try:
+        with fi.Pool(3) as p:
+            seen = p.map(_worker_consts, range(6))
+    finally:
+        fi._READ_SIZE_BYTES, fi._MAX_FE_MSG_SIZE_BYTES = REAL
+    return {'start_method': get_start_method(), 'workers_see': sorted(set((a, b) for a, b, _ in seen)),
+            'other_process': any(pid != os.getpid() for _, _, pid in seen)}
+
+
 def main():
     if len(sys.argv) > 1 and sys.argv[1] == '--catalog':
         print(json.dumps(catalog()))
+        print(json.dumps(probe_fork()))
         return
     tmpdir = sys.argv[1]
     os.makedirs(tmpdir, exist_ok=True)
